@@ -266,7 +266,7 @@ fn myers_case(u: &mut Unstructured, k255: bool) -> AResult<c09::MyersCase> {
         }
     };
     let width = *u.choose(&[8u8, 16, 32, 64])?;
-    Ok(c09::MyersCase { pattern: B(pattern), text: B(text), k, width, ambig, wildcards: B(wildcards) })
+    Ok(c09::MyersCase { pattern: B(pattern), text: B(text), k, width, ambig, wildcards: B(wildcards), k_is_best: u.ratio(1, 4)? })
 }
 
 /// one libFuzzer input for the Myers target: C09 (find_all_end/distance) or C10 (traceback APIs)
